@@ -31,11 +31,20 @@ macro "calc_simp" loc:(Lean.Parser.Tactic.location)? : tactic => `(tactic|
 theorem half_real : (@OfScientific.ofScientific ℝ Num.instOfScientific 5 true 1) = 1 / 2 := by
   show (OfScientific.ofScientific 5 true 1 : ℝ) = 1 / 2
   norm_num
+/-- the constants regenerated from the current source are the ones the proofs below use
+    (a changed constant in /repo breaks this `decide`, hence the build of Props/C14) -/
+theorem generated_consts_pinned :
+    Generated.CalcConsts.minStepM = 1 ∧ Generated.CalcConsts.minStepE = 7 ∧
+    Generated.CalcConsts.dtrlM = 5 ∧ Generated.CalcConsts.dtrlE = 2 ∧
+    Generated.CalcConsts.smallStepAlphaM = 0 ∧ Generated.CalcConsts.smallStepAlphaE = 0 ∧
+    Generated.CalcConsts.sqrtTolM = 1 ∧ Generated.CalcConsts.sqrtTolE = 6 ∧
+    Generated.CalcConsts.noScaling = 2 ^ 64 - 1 := by decide
 theorem sqrtTol_real : (sqrtTol : ℝ) = 1e-6 := rfl
 theorem mscMinStep_real : (mscMinStep : ℝ) = 1e-7 := rfl
 theorem mscDtrl_real : (mscDtrl : ℝ) = 0.05 := rfl
 theorem smallStepAlpha_real : (smallStepAlpha : ℝ) = 0 := by
-  unfold smallStepAlpha; exact NumR.lit0
+  show (OfScientific.ofScientific 0 true 0 : ℝ) = 0
+  norm_num
 theorem mscMinStep_pos : (0 : ℝ) < mscMinStep := by rw [mscMinStep_real]; norm_num
 
 /-! ### `static_cast<size_type>` at ℝ -/
